@@ -489,7 +489,7 @@ func c04R4(c *Ctx) {
 					if call, ok := st.Val.(*ssa.Call); ok && isLibCall(&call.Call, "net/url", "Values", "Encode") {
 						enc = true
 					}
-					if !isConst && !enc {
+					if !isConst && !enc && !escapedQuery(st.Val) {
 						problem = "RawQuery is not url.Values.Encode output"
 					}
 				default:
@@ -539,4 +539,26 @@ func c01FlowCached(P *Program) *Flow {
 	f := c01Flow(P)
 	P.cache["flowC01"] = f
 	return f
+}
+
+// escapedQuery: v is a concatenation of constant stretches made of unreserved
+// characters, `=` and `&` only, and results of url.QueryEscape — what
+// url.Values.Encode itself produces, written out by hand. Nothing in it can be
+// a blank, a control character or a `#`.
+func escapedQuery(v ssa.Value) bool {
+	if str, ok := constString(v); ok {
+		for _, r := range str {
+			switch {
+			case r >= 'a' && r <= 'z', r >= 'A' && r <= 'Z', r >= '0' && r <= '9', r == '-', r == '_', r == '.', r == '~', r == '=', r == '&':
+			default:
+				return false
+			}
+		}
+		return true
+	}
+	if b, ok := v.(*ssa.BinOp); ok && b.Op == token.ADD {
+		return escapedQuery(b.X) && escapedQuery(b.Y)
+	}
+	call, ok := v.(*ssa.Call)
+	return ok && isLibCall(&call.Call, "net/url", "", "QueryEscape")
 }
